@@ -165,7 +165,7 @@ def audit_sources():
 
 TRANSLATOR_ERROR = None
 # which regenerated fragments each proof module imports
-GEN_DEPS = {"Yv.Props.C04": ["Resolve"], "Yv.Props.C04gen": ["Resolve"], "Yv.Props.C14": ["Facts"], "Yv.Props.C19": ["Facts"], "Yv.Props.C05c": ["Action"], "Yv.Props.C08b": ["Driver"], "Yv.Props.EndToEnd": ["Action", "Driver"], "Yv.Props.EndToEndTerm": ["Action", "Driver"], "Yv.Props.C08c": ["TsDriver"]}
+GEN_DEPS = {"Yv.Props.C04": ["Resolve"], "Yv.Props.C04gen": ["Resolve"], "Yv.Props.C14": ["Facts"], "Yv.Props.C19": ["Facts"], "Yv.Props.C05c": ["Action"], "Yv.Props.C08b": ["Driver"], "Yv.Props.EndToEnd": ["Action", "Driver"], "Yv.Props.EndToEndTerm": ["Action", "Driver"], "Yv.Props.C08c": ["TsDriver"], "Yv.Props.EndToEndTs": ["TsDriver", "Action", "Driver"]}
 TIER = "quick"
 
 
